@@ -25,9 +25,16 @@ pub struct Case {
   pub flavor: Flavor,
   pub history: Vec<Trig>,
   pub guard: bool,
+  /// a second finalize directly above the one under test (both end with the same event)
+  pub stacked: bool,
+  /// an early terminator BELOW finalize (take / first), only over a `create` source, which
+  /// still delivers its terminal to an observer whose downstream has finished
+  pub downstream: Option<Op>,
 }
 
 const FIN: u32 = 600;
+const FIN2: u32 = 601;
+const SPY: u32 = 45;
 
 pub fn random_case(r: &mut Rng, max_len: usize) -> Case {
   let mut upstream = vec![];
@@ -52,13 +59,18 @@ pub fn random_case(r: &mut Rng, max_len: usize) -> Case {
       _ => Trig::Unsub,
     })
     .collect();
+  let create_src = r.chance(1, 3);
+  let src_kind = [0u8, 0, 0, 1, 2][r.below(5)];
+  let downstream = if create_src && src_kind == 0 && r.chance(1, 3) { Some([Op::Take(1), Op::Take(2), Op::First][r.below(3)].clone()) } else { None };
   Case {
     upstream,
-    create_src: r.chance(1, 3),
-    src_kind: [0, 0, 0, 1, 2][r.below(5)],
+    create_src,
+    src_kind,
     flavor: if r.chance(1, 2) { Flavor::Local } else { Flavor::Threads },
     history,
     guard: r.chance(1, 4),
+    stacked: r.chance(1, 4),
+    downstream,
   }
 }
 
@@ -72,7 +84,17 @@ pub fn observe(c: &Case) -> Result<Obs, String> {
   catch(|| {
     let mut w = World::new(c.flavor, 1);
     let mut ops = c.upstream.clone();
+    if c.downstream.is_some() {
+      // what reaches finalize from above is recorded by a transparent spy
+      ops.push(Op::Spy(SPY));
+    }
+    if c.stacked {
+      ops.push(Op::Finalize(FIN2));
+    }
     ops.push(Op::Finalize(FIN));
+    if let Some(d) = &c.downstream {
+      ops.push(d.clone());
+    }
     let mut ops = ops;
     let src = match c.src_kind {
       1 => Src::Never,
@@ -129,9 +151,24 @@ pub fn judge(c: &Case, o: &Result<Obs, String>) -> Option<(String, serde_json::V
     Err(p) => return Some(("panic".into(), json!({"panic": p}))),
     Ok(o) => o,
   };
-  let fins: Vec<u64> = o.evs.iter().filter(|e| e.id == FIN && matches!(e.k, K::Mark("finalize", _))).map(|e| e.seq).collect();
-  // the first of {terminal seen by the subscriber, unsubscribe call}
-  let term = o.evs.iter().find(|e| e.id == 1 && matches!(&e.k, K::N(n) if n.is_terminal())).map(|e| e.seq);
+  if c.stacked {
+    if let Some((k, d)) = judge_fin(c, o, FIN2) {
+      return Some((k, json!({"which": "the finalize above the last one", "result": d})));
+    }
+  }
+  judge_fin(c, o, FIN)
+}
+
+fn judge_fin(c: &Case, o: &Obs, fin: u32) -> Option<(String, serde_json::Value)> {
+  let fins: Vec<u64> = o.evs.iter().filter(|e| e.id == fin && matches!(e.k, K::Mark("finalize", _))).map(|e| e.seq).collect();
+  // the first of {terminal seen by the subscriber, unsubscribe call}; with an early terminator
+  // below finalize the subscriber's terminal is not finalize's: its own subscription ends when
+  // a terminal reaches it from above (recorded by the spy; the create source delivers its terminal regardless)
+  let term = if c.downstream.is_some() {
+    o.evs.iter().find(|e| e.id / 1000 == SPY && matches!(&e.k, K::N(n) if n.is_terminal())).map(|e| e.seq)
+  } else {
+    o.evs.iter().find(|e| e.id == 1 && matches!(&e.k, K::N(n) if n.is_terminal())).map(|e| e.seq)
+  };
   let unsub = o.evs.iter().find(|e| matches!(e.k, K::Mark("unsub_call", _))).map(|e| e.seq);
   let unsub_ret = o.evs.iter().find(|e| matches!(e.k, K::Mark("unsub_ret", _))).map(|e| e.seq);
   let first = match (term, unsub) {
